@@ -297,6 +297,10 @@ def _run_child(binary, engine, infile, shard, nshards, after, only, timeout, env
     return p.returncode, inflight, (errbuf[0] if errbuf else "")
 
 
+MAX_TIMEOUTS = 6      # confirmed-or-not hangs after which a shard stops exploring
+RETRY_TIMEOUTS = 4    # hangs retried in isolation (with 4x the time) before they count
+
+
 def replay(engine, infile, nshards=None, timeout=30, env=None, rlimit_as=None, race=False, extra=None,
            crash_is_violation=True, side_path=None):
     """Feeds every scenario of infile to `wconf replay <engine>` children.  A child that
@@ -340,7 +344,14 @@ def replay(engine, infile, nshards=None, timeout=30, env=None, rlimit_as=None, r
                 # watchdog already reported T for the scenario; find where to resume
                 with lock:
                     last = max([i for i in out.timeouts if i % nshards == k] or [-1])
+                    too_many = len(out.timeouts) >= MAX_TIMEOUTS
                 after = last
+                if too_many:
+                    # hangs cost `timeout` seconds each: a handful establishes the verdict, the rest of the
+                    # shard stays unexplored
+                    with lock:
+                        out.truncated.append(k)
+                    return
             elif inflight is not None:
                 with lock:
                     out.total += 1
@@ -365,18 +376,29 @@ def replay(engine, infile, nshards=None, timeout=30, env=None, rlimit_as=None, r
         t.join()
     # timeouts are retried once in isolation, with four times the time (a loaded machine is not a hang),
     # before they count
+    # (at most RETRY_TIMEOUTS of them, concurrently; hangs beyond those are neither retried nor claimed)
     confirmed = []
-    for idx in out.timeouts:
+    to_retry = sorted(out.timeouts)[:RETRY_TIMEOUTS]
+
+    def retry(idx):
         res = []
         rc, inflight, err = _run_child(binary, engine, infile, 0, 1, None, idx, timeout * 4, env, rlimit_as, extra,
                                        lambda tag, i, payload: res.append((tag, i, payload)))
         if any(t == "T" for t, _, _ in res) or (rc not in (0,) and not res):
-            confirmed.append(idx)
+            with lock:
+                confirmed.append(idx)
         else:
             for tag, i, payload in res:
-                out.total -= 0
+                if tag in ("K", "F", "E"):
+                    with lock:
+                        out.total -= 1   # the scenario was already counted when its time-out was reported
                 cb(tag, i, payload)
-    out.timeouts = confirmed
+    rths = [threading.Thread(target=retry, args=(idx,)) for idx in to_retry]
+    for t in rths:
+        t.start()
+    for t in rths:
+        t.join()
+    out.timeouts = sorted(confirmed)
     log("replay %s: %d scenarios, %d ok, %d failed, %d crashed, %d timed out, %.1fs" %
         (engine, out.total, out.passed, len(out.failures), len(out.crashes), len(out.timeouts), time.time() - t_start))
     if side_out:
